@@ -112,7 +112,7 @@ pub fn generated_seeds(thorough: bool) -> Vec<Seed> {
     v.push(seed("gen:cmp-closure", "Hash, PartialEq", "enum X { A(#[hash(by = |a: &u8, s| ::core::hash::Hash::hash(&(*a / 2), s))] #[partial_eq(by = |a: &u8, b: &u8| a / 2 == b / 2)] u8), B }"));
     v.push(seed("gen:cmp-literal", "PartialEq, Hash", "struct X(#[eq(key = $.len() + \" :: \".len() + \":::\".len())] String);"));
     // one trait of the list cannot be generated: the others (and their dumps) are not disturbed
-    for (attr, item) in [("Clone, Deref", "struct X(u8, u8);"), ("Default, Clone", "enum X { A, B }"), ("Clone, Debug", "struct X(#[debug(transparent)] u8, #[debug(transparent)] u8);"), ("Ord, PartialOrd, Eq, PartialEq", "struct X(#[partial_ord(reverse)] u8);")] {
+    for (attr, item) in [("Clone, Deref", "struct X(u8, u8);"), ("Default, Clone", "enum X { A, B }"), ("Clone, Debug", "struct X(#[debug(transparent)] u8, #[debug(transparent)] u8);"), ("Ord, PartialOrd, Eq, PartialEq", "struct X(#[partial_ord(reverse)] u8);"), ("Clone, Add", "enum X { A(u8), B }"), ("Debug, Deref, Clone", "enum X { A(u8) }"), ("Neg, PartialEq", "enum X { A, B }")] {
         v.push(seed("gen:failing-sibling", attr, item));
     }
     // generic comparison with bounds
